@@ -10,6 +10,7 @@ CONSTANTS
   MaxFail = 1
   MaxQ0 = 1
   Kinds = {"P1", "SUB"}
+  Parts = {TRUE, FALSE}
   MaxCancel = 1
   MaxFault = 1
   Dev = {}
